@@ -251,11 +251,13 @@ Section Deps.
                      | x :: r, y :: s => andb (andb (Nat.eqb (fst x) (fst y)) (neqb N (snd x) (snd y))) (go r s)
                      | _, _ => false end) a b.
 
-    (* one entry per path: (lat_sum, sorted lat_path); duplicates (equal sorted lat_path) keep the first *)
+    (* one entry per path: (lat_sum, sorted lat_path); duplicates (equal sorted lat_path) keep the first.
+       lat_sum adds the latencies in the order of the SORTED lat_path (left to right, starting from 0.0), not in path order:
+       it is a function of the sorted lat_path alone, whichever rotation of a cycle the path is. *)
     Definition entry := (T * list (nat * T))%type.
+    Definition sum_pairs (lp : list (nat * T)) : T := fold_left (fun a sw => nadd N a (snd sw)) lp (n0 N).
     Definition entry_of (off : nat) (p : list (nat * T)) : entry :=
-      (fold_left (fun a sw => nadd N a (snd sw)) p (n0 N),
-       sort_pairs (map (fun sw => (back off (fst sw), snd sw)) p)).
+      let lp := sort_pairs (map (fun sw => (back off (fst sw), snd sw)) p) in (sum_pairs lp, lp).
     Fixpoint dedup (seen : list (list (nat * T))) (es : list entry) : list entry :=
       match es with
       | [] => []
